@@ -22,7 +22,7 @@ func init() { register(c07{}) }
 func (c07) ID() string    { return "C07" }
 func (c07) Level() string { return "exploration" }
 func (c07) Rule() string {
-	return "frames (valid ones of all types from the library and the reference encoder, short forms, content-malformed ones, type 0) x delivery schedules allowed by io.Reader: ALL compositions of the frame length into chunk sizes for frames up to 10 bytes (14 in the thorough tier), and for longer frames all two-chunk splits (<=2 KiB), one byte at a time, random compositions, splits at every field boundary +-1, two frames pipelined in one stream (boundary inside one Read), and a re-entrant reader that reads whole packets from a second stream inside its Read; each schedule also with (0,nil) reads interleaved and with the final chunk delivered as (n, io.EOF). Oracle: differential against the same frame read from a contiguous reader (same accessor snapshot, or rejection in both). distinct = (frame digest, schedule); non-trivial = the schedule splits the frame or adds zero-length reads"
+	return "frames (valid ones of all types from the library and the reference encoder, short forms, content-malformed ones, type 0) x delivery schedules allowed by io.Reader: ALL compositions of the frame length into chunk sizes for frames up to 10 bytes (14 in the thorough tier), and for longer frames all two-chunk splits (<=2 KiB), one byte at a time, random compositions, splits at every field boundary +-1, two frames pipelined in one stream (boundary inside one Read), a peer that pauses (runs of 99..1000 consecutive (0,nil) reads before the frame, inside the header and inside the body), and a re-entrant reader that reads whole packets from a second stream inside its Read; each schedule also with (0,nil) reads interleaved and with the final chunk delivered as (n, io.EOF). Oracle: differential against the same frame read from a contiguous reader (same accessor snapshot, or rejection in both). distinct = (frame digest, schedule); non-trivial = the schedule splits the frame or adds zero-length reads"
 }
 func (c07) Assumptions() []string {
 	return []string{"schedules never violate the io.Reader contract (at most len(p) bytes, buffer not retained, (0,nil) only finitely often)", "error texts are not compared, only acceptance and accessor values"}
@@ -206,6 +206,41 @@ func (c07) Run(c *run.Ctx, phase, idx int) {
 		}
 		for i := 0; i < 6; i++ {
 			c07Variants(c, r, f, iso, randomSteps(r, n, false, 1+r.Intn(n)), "random")
+		}
+		// a peer that pauses: long runs of (0, nil) reads before the frame,
+		// inside the fixed header and inside the body (the io.Reader contract
+		// discourages them but allows them; io.ReadFull sits them out)
+		for _, z := range []int{99, 100, 101, 128, 257, 1000} {
+			if z > 128 && !r.Chance(1, 3) {
+				continue
+			}
+			for _, k := range []int{0, 1, 2 + r.Intn(n-1)} {
+				if k >= n {
+					k = n - 1
+				}
+				var steps []mon.Step
+				if k > 0 {
+					steps = append(steps, mon.Step{N: k})
+				}
+				for i := 0; i < z; i++ {
+					steps = append(steps, mon.Step{N: 0})
+				}
+				steps = append(steps, mon.Step{N: n - k})
+				name := fmt.Sprintf("pause-%d-zero-reads", z)
+				rd := &mon.ScriptedReader{Data: f.Bytes, Steps: steps}
+				c.Current(func() string {
+					return fmt.Sprintf("ReadPacket frame=%s schedule=%d bytes, %d x (0,nil), %d bytes", hexClip(f.Bytes, 512), k, z, n-k)
+				})
+				res := mon.Read(rd)
+				c.Eval(1)
+				c.Distinct(run.HashBytes(run.Hash64(name, itoa(k)), f.Bytes), true)
+				c.Count("schedules", name, 1)
+				if ok, why := sameOutcome(iso, res); !ok {
+					c.Violation("C07/"+name+"/"+f.Kind+"/"+acceptWord(iso.Accepted), fmt.Sprintf("%s frame of %d bytes delivered as %d bytes, then %d reads of (0, nil), then the remaining %d bytes: %s", tname(f.Type), n, k, z, n-k, why),
+						map[string]interface{}{"frame": hexClip(f.Bytes, 2048), "bytes_before_pause": k, "zero_reads": z, "kind": f.Kind})
+					break
+				}
+			}
 		}
 		// re-entrant reader: while this frame trickles in, whole other
 		// packets are read from another stream inside the reader's Read
